@@ -194,6 +194,21 @@ def native_fuzz(pid, spec, root, violations, trouble):
             violations.append((f.get("message", "native fuzzing found a failing input"), save_replay(pid, f)))
         except Exception:
             pass
+    # a worker that died (fatal error, stack overflow) cannot write its own failure file: go test saved the input
+    if not fails and os.path.isdir(crashdir):
+        for fn in sorted(os.listdir(crashdir))[:3]:
+            try:
+                body = open(os.path.join(crashdir, fn)).read()
+                mm = re.search(r'\[\]byte\((".*")\)', body, re.S)
+                data = subprocess.run(["go", "run", os.path.join(VERIF, "tools", "unquote.go"), mm.group(1)], env=env,
+                                      stdout=subprocess.PIPE).stdout if mm else b""
+                import base64
+                case = {"input": base64.b64encode(data).decode(), "origin": "fuzz:" + fn}
+                violations.append(("native fuzzing: the front end died or failed on a saved input (%s)" % fn,
+                                   save_replay(pid, {"property": pid, "message": "found by go test -fuzz:\n" + out[-1200:], "case": case})))
+                fails.append(fn)
+            except Exception as e:
+                trouble.append("could not convert fuzz crasher %s: %s" % (fn, e))
     if rc not in (0, -9) and not fails:
         trouble.append("go test -fuzz exited with %s without a recorded failing input:\n%s" % (rc, out[-1500:]))
     shutil.rmtree(os.path.join(pkgdir, "testdata"), ignore_errors=True)
